@@ -413,6 +413,12 @@ one nesting: `editSettings` holds `settingsMu` and reads the option store under 
 theorem lock_order_acyclic : lockOrderOk lockRank nestedEdges = true := by decide
 
 open PV.Gen.LockFacts in
+/-- No function leaves an explicit `Lock … Unlock` region early with the mutex still held (a
+`return` there is fine only after an `Unlock` in the same branch).  Other uses of sync primitives
+that have none of the recognised shapes are listed in `looseSync` and simply guard nothing. -/
+theorem no_lock_leak : noLeak looseSync = true := by decide
+
+open PV.Gen.LockFacts in
 /-- newTempFile opens with `O_CREATE|O_EXCL` and retries on EEXIST: the step relation of
 `excl_create_distinct_names` (`excl = true`). -/
 theorem tempfile_excl : tempExcl tempFile = true := by decide
